@@ -44,7 +44,7 @@ pub fn gen_pattern(rng: &mut Rng) -> J {
     for i in 0..period {
         let k = ms[(i + rot) % period];
         let style = *rng.pick(&["put_slice", "extend", "scribble", "resize", "put_bytes", "split_off_unsplit", "reserve_put"]);
-        let consume = *rng.pick(&["split_to", "split_to", "advance", "advance", "truncate", "copy_to_bytes", "split_to_freeze"]);
+        let consume = *rng.pick(&["split_to", "split_to", "advance", "advance", "truncate", "copy_to_bytes", "split_to_freeze", "split_to_into_vec", "split_freeze_into_vec"]);
         rounds.push(
             J::obj()
                 .set("m", ms[i])
@@ -52,8 +52,27 @@ pub fn gen_pattern(rng: &mut Rng) -> J {
                 .set("style", style)
                 .set("consume", consume)
                 .set("extra_reserve", if rng.chance(1, 4) { rng.range(0, 64) } else { 0 })
-                .set("roundtrip", if window == 0 && rng.chance(1, 5) { *rng.pick(&["freeze_try_into_mut", "freeze_from", "clone_drop"]) } else { "none" }),
+                .set("roundtrip", if window == 0 && rng.chance(1, 5) { *rng.pick(&["freeze_try_into_mut", "freeze_from", "clone_drop"]) } else { "none" })
+                // park the (possibly empty) recycling handle as Bytes and take it back *before* the refill
+                .set("rt_before", if window == 0 && rng.chance(1, 6) { *rng.pick(&["freeze_try_into_mut", "freeze_from"]) } else { "none" }),
         );
+    }
+    // "park" family (1 in 10): the handle is emptied without moving its front (truncate to 0)
+    // and parked as Bytes / taken back before every refill — the recycling idiom of a pool
+    if rng.chance(1, 10) {
+        let rounds: Vec<J> = rounds
+            .into_iter()
+            .map(|r| {
+                let m = r.us("m");
+                let mut r = r;
+                r.put("k", m);
+                r.put("consume", "truncate");
+                r.put("rt_before", *rng.pick(&["freeze_try_into_mut", "freeze_from"]));
+                r.put("roundtrip", "none");
+                r
+            })
+            .collect();
+        return J::obj().set("init_cap", *rng.pick(&[0usize, 64, 1024, 4096, 65536])).set("leftover", 0usize).set("window", 0usize).set("period", J::Arr(rounds));
     }
     J::obj()
         .set("init_cap", *rng.pick(&[0usize, 0, 8, 64, 1024, 4096, 8192, 65536]))
@@ -92,6 +111,7 @@ const LOOSE_BOUND_PM: u64 = 8000;
 enum Part {
     M(BytesMut),
     B(Bytes),
+    V(Vec<u8>),
 }
 
 pub struct Out {
@@ -145,6 +165,7 @@ pub fn run_pattern(p: &J, limit: u64, seed: u64) -> Out {
             let mut peak = alloc::stats().live_bytes;
             let mut max_cap = buf.capacity();
             let mut flowed_since_rise = 0usize;
+            let mut rounds_since_rise = 0u64;
             let mut allocs_since_rise = 0u64;
             let mut measuring = false;
             let mut n_warm = 0u64;
@@ -153,12 +174,27 @@ pub fn run_pattern(p: &J, limit: u64, seed: u64) -> Out {
             let mut end_round = limit;
             let mut round = 0u64;
             let mut peak_quarter = 0usize;
+            let mut late_refill_allocs = 0u64;
             while round < end_round {
                 let spec = &per[(round % per.len() as u64) as usize];
                 let (m, k) = (spec.us("m"), spec.us("k"));
                 // ---------------- refill (calls on the recycling handle)
                 alloc::clear_events();
                 let extra = spec.us("extra_reserve");
+                match spec.str("rt_before").unwrap_or("none") {
+                    "freeze_try_into_mut" => {
+                        let b = std::mem::replace(&mut buf, BytesMut::new()).freeze();
+                        buf = match b.try_into_mut() {
+                            Ok(m) => m,
+                            Err(b) => BytesMut::from(b),
+                        };
+                    }
+                    "freeze_from" => {
+                        let b = std::mem::replace(&mut buf, BytesMut::new()).freeze();
+                        buf = BytesMut::from(b);
+                    }
+                    _ => {}
+                }
                 // (iii) reserve on an empty handle that is alone on a big enough block never allocates
                 let mut sole_probe = false;
                 if buf.is_empty() && retained.is_empty() {
@@ -252,6 +288,17 @@ pub fn run_pattern(p: &J, limit: u64, seed: u64) -> Out {
                         retained_bytes += k;
                         retained.push_back(Part::B(part));
                     }
+                    "split_to_into_vec" => {
+                        // the consumer takes the part as a Vec<u8>
+                        let part: Vec<u8> = Vec::from(buf.split_to(k));
+                        retained_bytes += k;
+                        retained.push_back(Part::V(part));
+                    }
+                    "split_freeze_into_vec" => {
+                        let part: Vec<u8> = Vec::from(buf.split_to(k).freeze());
+                        retained_bytes += k;
+                        retained.push_back(Part::V(part));
+                    }
                     _ => {
                         let part = buf.split_to(k);
                         retained_bytes += k;
@@ -263,6 +310,7 @@ pub fn run_pattern(p: &J, limit: u64, seed: u64) -> Out {
                     match retained.pop_front() {
                         Some(Part::M(x)) => retained_bytes -= x.len(),
                         Some(Part::B(x)) => retained_bytes -= x.len(),
+                        Some(Part::V(x)) => retained_bytes -= x.len(),
                         None => {}
                     }
                 }
@@ -275,6 +323,9 @@ pub fn run_pattern(p: &J, limit: u64, seed: u64) -> Out {
                 let st = alloc::stats();
                 round += 1;
                 out.rounds = round;
+                if round > limit / 2 {
+                    late_refill_allocs += ra;
+                }
                 if st.live_bytes > guard_limit {
                     out.viol.push(Violation {
                         props: vec!["C18"],
@@ -292,7 +343,9 @@ pub fn run_pattern(p: &J, limit: u64, seed: u64) -> Out {
                     if rose || (window == 0 && ra > 0) {
                         flowed_since_rise = 0;
                         allocs_since_rise = 0;
+                        rounds_since_rise = 0;
                     } else {
+                        rounds_since_rise += 1;
                         let front = spec.str("consume") != Some("truncate");
                         flowed_since_rise += if !any_front { m } else if front { k } else { 0 };
                         allocs_since_rise += ra;
@@ -300,7 +353,9 @@ pub fn run_pattern(p: &J, limit: u64, seed: u64) -> Out {
                     if round == limit / 4 {
                         peak_quarter = peak;
                     }
-                    if flowed_since_rise >= 8 * (max_cap + retained_bytes + max_req) && round >= per.len() as u64 * 2 {
+                    // ... and the quiet stretch must span whole periods (every phase of the retention
+                    // window has been seen at least three times)
+                    if flowed_since_rise >= 8 * (max_cap + retained_bytes + max_req) && rounds_since_rise >= per.len() as u64 * 3 + window as u64 {
                         measuring = true;
                         out.converged = true;
                         n_warm = round;
@@ -327,7 +382,12 @@ pub fn run_pattern(p: &J, limit: u64, seed: u64) -> Out {
                         });
                         break;
                     }
-                    if st.peak_live_bytes > p0 {
+                    // With a retention window the peak at a wrap depends on which parts happen to be
+                    // retained at that moment; the wrap phase drifts against the pattern period, so a
+                    // later wrap may legitimately exceed the warm-up peak by up to the retained parts
+                    // plus one request. (Unbounded growth exceeds any such constant.)
+                    let tol = if window == 0 { 0 } else { (window + 1) * max_req };
+                    if st.peak_live_bytes > p0 + tol {
                         out.viol.push(Violation {
                             props: vec!["C18"],
                             kind: "peak-memory-rose-after-warm-up".into(),
@@ -356,6 +416,18 @@ pub fn run_pattern(p: &J, limit: u64, seed: u64) -> Out {
                 });
             }
             out.refill_allocs_after = refill_after;
+            if !measuring && out.viol.is_empty() && out.rounds >= limit && window == 0 && limit >= 2000 && late_refill_allocs * 4 >= limit / 2 {
+                // every split-off part is dropped before the next refill, yet the refill calls keep
+                // allocating at least every fourth round in the second half of the history: no
+                // implementation that recycles does that (a legitimate allocation at least doubles
+                // the room and is followed by a whole buffer's worth of allocation-free rounds)
+                out.viol.push(Violation {
+                    props: vec!["C18"],
+                    kind: "allocations-keep-occurring".into(),
+                    detail: format!("{} byte-buffer allocations inside refill calls during the last {} rounds although every split-off part was dropped before the next refill", late_refill_allocs, limit / 2),
+                    step: limit as usize,
+                });
+            }
             if !measuring && out.viol.is_empty() && out.rounds >= limit {
                 // never settled: only a clear upward trend is reported
                 if peak_quarter > 0 && peak >= 4 * peak_quarter && peak > 8 * (max_req + leftover + 64) {
